@@ -3396,6 +3396,16 @@ def norm_adaptors(F, t, depth=0):
             return None
         if x[0] == "call" and len(x[2]) == 1 and re.search(r"Option::<T>::(transpose|copied|cloned|as_ref|as_deref)$|Result::<T, E>::(ok|transpose)$|Option::<.*>::transpose$", x[1]):
             return norm_adaptors(F, x[2][0], depth + 1)
+        # a closure value applied to arguments (a combining function handed to a helper as a parameter): its body's value
+        if x[0] == "call" and depth < 4 and len(x[2]) == 2 and re.search(r"std::ops::Fn(Mut|Once)?(<[^>]*>)?>?::call(_mut|_once)?$", x[1].split("{")[0]):
+            cl_ = x[2][0]
+            while cl_[0] in ("mut", "ref"):
+                cl_ = cl_[1]
+            args_ = x[2][1]
+            if cl_[0] == "closure" and cl_[1] in F.bodies and args_[0] == "tuple" and not F.bodies[cl_[1]].natural_loops():
+                rt_ = nosite(deep_strip(Terms(F.bodies[cl_[1]]).return_term()))
+                if rt_[0] != "phi":
+                    return norm_adaptors(F, substitute_closure(rt_, cl_[2], tuple(norm_adaptors(F, a_, depth + 1) for a_ in args_[1])), depth + 1)
         # x.map_or(d, f) = f(x) when present, d otherwise: ('default', f(x), d); is_some_and / is_none_or likewise
         m = x[0] == "call" and depth < 4 and re.search(r"(Option::<T>|Result::<T, E>)::(map_or|is_some_and|is_none_or|is_ok_and)$", x[1])
         if m and len(x[2]) == (3 if m.group(2) == "map_or" else 2):
